@@ -106,9 +106,8 @@ func (p *Program) programObligations(id string) []*Obligation {
 					}
 				}
 			}
-			if bad == 0 {
-				out = append(out, decided(name, "no instruction outside the pool constructor stores to a field mentioned in: "+pi.Src, true, nil))
-			}
+			// the claimed obligation itself fails too (the per-site ones above say where)
+			out = append(out, decided(name, "no instruction outside the pool constructor stores to a field mentioned in: "+pi.Src, bad == 0, nil))
 		}
 	}
 	if id == "C04" {
@@ -183,9 +182,7 @@ func (p *Program) scanResetCoverage(decided decidedFn) []*Obligation {
 				}
 			}
 		}
-		if allOK {
-			out = append(out, decided(name, "every field of pooled "+key+" is re-initialised by reset or never written after construction", true, nil))
-		}
+		out = append(out, decided(name, "every field of pooled "+key+" is re-initialised by reset or never written after construction", allOK, nil))
 	}
 	return out
 }
@@ -237,9 +234,7 @@ func (p *Program) scanNoGlobalWrites(decided decidedFn) []*Obligation {
 			}
 		}
 	}
-	if bad == 0 {
-		out = append(out, decided("mimetype.detection#C04.no_global_write", "no function other than SetLimit/Extend/initialisers stores to a package-level variable (pools are accessed only through sync.Pool)", true, nil))
-	}
+	out = append(out, decided("mimetype.detection#C04.no_global_write", "no function other than SetLimit/Extend/initialisers stores to a package-level variable (pools are accessed only through sync.Pool)", bad == 0, nil))
 	return out
 }
 
@@ -287,8 +282,8 @@ func (p *Program) scanPoolReaderReset(decided decidedFn) []*Obligation {
 				}
 			}
 		}
-		if okAll && found {
-			out = append(out, decided(name, "every Get of the pooled bufio.Reader is followed by Reset(source) in the same function", true, nil))
+		if found {
+			out = append(out, decided(name, "every Get of the pooled bufio.Reader is followed by Reset(source) in the same function", okAll, nil))
 		}
 	}
 	return out
@@ -333,8 +328,8 @@ func (p *Program) scanAtomicGlobals(decided decidedFn) []*Obligation {
 			}
 		}
 	}
-	if bad == 0 && len(atomicG) > 0 {
-		out = append(out, decided("mimetype.readLimit#C06.atomic_only", "variables accessed through sync/atomic are never accessed directly outside initialisers", true, nil))
+	if len(atomicG) > 0 {
+		out = append(out, decided("mimetype.readLimit#C06.atomic_only", "variables accessed through sync/atomic are never accessed directly outside initialisers", bad == 0, nil))
 	}
 	return out
 }
